@@ -1,6 +1,8 @@
 package props
 
 import (
+	"verif/h/core"
+
 	"github.com/honeytrap/honeytrap/pushers"
 	_ "github.com/honeytrap/honeytrap/server" // registers every service, listener, channel
 	"github.com/honeytrap/honeytrap/services"
@@ -10,11 +12,14 @@ import (
 // their keys and certificates are generated and persisted here and badger is
 // only ever read from inside the bubble.
 func warmup() {
+	core.Relaxed.Store(true)
+	defer func() { core.Relaxed.Store(false); core.Tick() }()
 	for _, name := range []string{"ftp", "smtp", "ldap", "ssh-simulator", "ssh-auth", "ssh-proxy", "ssh-jail"} {
 		fn, ok := services.Get(name)
 		if !ok {
 			continue
 		}
+		core.Tick() // key generation is slow and of random duration: one watchdog step per service
 		func() {
 			defer func() { recover() }()
 			fn(services.WithChannel(pushers.MustDummy()))
